@@ -13,6 +13,7 @@ import (
 	"strings"
 	"sync"
 	"testing"
+	"time"
 
 	apierrors "k8s.io/apimachinery/pkg/api/errors"
 	metav1 "k8s.io/apimachinery/pkg/apis/meta/v1"
@@ -226,7 +227,7 @@ func poolCluster(name string, max int32) *proxyv1alpha1.UpstreamCluster {
 }
 
 func TestPropLeaderGuard(t *testing.T) {
-	sub := stats.NewSub("leader-guard-histories", "rapid state machine on the real limiter with a real elector without leases (N in 1..4 shards, local / API-backed store): the REAL leader elector driven by leadership events through a hook; ops gain, lose (optionally with a tick of the periodic leader check landing while the loss is being processed), foreign leader announced (+leaderCheck), leader entry vanished without callback (+leaderCheck), allocate, acquire, cluster update, for a pool of upstream names; model = set of led shards and the conditions acknowledged per shard; oracle: a call succeeds iff the upstream's shard (reference function) is led, otherwise error naming the recorded leader and no store exists for the shard; a cluster update for a shard not led changes nothing; after lose+regain with the local store earlier conditions are gone; after a successful allocate only the owning shard's store holds the condition; non-trivial = history has a loss of leadership after a successful call and a later call for that shard; distinct by FNV-64 of the op trace")
+	sub := stats.NewSub("leader-guard-histories", "rapid state machine on the real limiter with a real elector without leases (N in 1..4 shards, local / API-backed store): the REAL leader elector driven by leadership events through a hook; ops gain, a start attempt that hangs in Load and is overtaken by a loss and a second, successful start before it fails (API-backed store), lose (optionally with a tick of the periodic leader check landing while the loss is being processed), foreign leader announced (+leaderCheck), leader entry vanished without callback (+leaderCheck), allocate, acquire, cluster update, for a pool of upstream names; model = set of led shards and the conditions acknowledged per shard; oracle: a call succeeds iff the upstream's shard (reference function) is led, otherwise error naming the recorded leader and no store exists for the shard; a cluster update for a shard not led changes nothing; after lose+regain with the local store earlier conditions are gone; after a successful allocate only the owning shard's store holds the condition; non-trivial = history has a loss of leadership after a successful call and a later call for that shard; distinct by FNV-64 of the op trace")
 	stats.Check(t, stats.N(4000, 25000), func(t *rapid.T) {
 		n := rapid.IntRange(1, 4).Draw(t, "N")
 		kind := rapid.SampledFrom([]string{"local", "k8s"}).Draw(t, "store")
@@ -286,6 +287,43 @@ func TestPropLeaderGuard(t *testing.T) {
 				box.Elector.AfterStop = nil
 				dropShard(s)
 				trace += fmt.Sprintf("lose(%d,tick=%v);", s, tick)
+			},
+			"overtakenStart": func(t *rapid.T) {
+				// an API brown-out: a start attempt hangs in the store's Load (client-go runs OnStartedLeading in its own
+				// goroutine), the lease is lost and gained again, the second start loads fine and serves, and only then
+				// does the first attempt's list fail. The late failure must not touch the live store of the second start.
+				if kind != "k8s" {
+					t.Skip("only the API-backed store loads from the API")
+				}
+				s := rapid.IntRange(0, n-1).Draw(t, "shard")
+				if led[s] || box.Limiter.VerifStore(s) != nil {
+					t.Skip("shard is led")
+				}
+				gateArrived, releaseWithError := box.ListGate.Arm()
+				first := make(chan struct{})
+				go func() { box.Elector.Gain(s); close(first) }()
+				select {
+				case <-gateArrived:
+				case <-first: // the start did not list (should not happen)
+					box.ListGate.Disarm()
+					led[s] = true
+					trace += fmt.Sprintf("gain(%d);", s)
+					return
+				case <-time.After(5 * time.Second):
+					t.Fatalf("harness: the first start attempt never reached the API\ntrace: %s", trace)
+				}
+				box.Elector.Lose(s)
+				box.Elector.Gain(s) // the second start: lists without trouble
+				releaseWithError()  // now the first attempt's list fails
+				select {
+				case <-first:
+				case <-time.After(10 * time.Second):
+					t.Fatalf("harness: the first start attempt did not return\ntrace: %s", trace)
+				}
+				led[s] = true
+				trace += fmt.Sprintf("overtaken-start(%d);", s)
+				nt = true
+				sub.Class("start-attempt-overtaken-by-a-later-one")
 			},
 			"vanishedEntry": func(t *rapid.T) {
 				// the leader table no longer names anybody for the shard and the lost-leadership callback did not (or not yet)
